@@ -459,7 +459,7 @@ class Element(TypedContent):
         e = self.__deref()
         if e is not None:
             return e.namespace(prefix)
-        return super(Element, self).namespace()
+        return super(Element, self).namespace(prefix)
 
     def __deref(self):
         if self.ref is None:
